@@ -402,8 +402,33 @@ _LAM = ("Lambda", _I(X2), ("Compare", "Eq", ("Attr", _I(X2), X1), _ONE))
 
 ID_POOL = [_I(X0), _I(X0, (X1,)), _I(X0, (X1, X2))]
 # the call productions look the name up in a dict (hashing a symbolic str never closes): symbolic picks from a pool
-FUNC_POOL = [_I("now"), _I("length"), _I("substring"), _I("concat"), _I("distance", ("geo",)), _I("length", ("geo",)),
-             _I("nosuch"), _I("Length"), _I("fn", ("ns",)), _I("now", ("a", "b")), _I("")]
+FUNC_POOL: List[Any] = []
+FUNC_NAMES: List[str] = []
+_TABLE_NAMES: List[str] = []
+
+
+def _init_func_pool() -> None:
+    """every name of the live function table, case variants (lower / UPPER of every name that is not all lower-case, UPPER /
+    Title of a few others), near-misses and foreign namespaces"""
+    from odata_query import grammar as _g
+    table = list(_g.ODATA_FUNCTIONS)
+    _TABLE_NAMES[:] = table
+    names: List[str] = list(table)
+    for nm in table:
+        if nm != nm.lower():
+            names += [nm.lower(), nm.upper()]
+    for nm in table[:3] + [t for t in table if "." in t][:2] + [t for t in table if _g.ODATA_FUNCTIONS[t] == 0][:1]:
+        names += [nm.upper(), nm[:1].upper() + nm[1:]]
+    names += ["nosuch", "ns.fn", "a.b.now", "geo.length2", "geo.nosuch", "lengthh", "lengt", ""]
+    seen: List[str] = []
+    for nm in names:
+        if nm not in seen:
+            seen.append(nm)
+    FUNC_NAMES[:] = seen
+    FUNC_POOL[:] = [_I(nm.split(".")[-1], tuple(nm.split(".")[:-1])) for nm in seen]
+
+
+_init_func_pool()
 PATH_POOL = [_I(X0), _I(X0, (X1,)), ("Attr", _I(X0), X1), ("Attr", ("Attr", _I(X0), X1), X2), ("Attr", ("Attr", ("Attr", _I(X0), X1), X2), X0)]
 MEMBER_POOL = PATH_POOL + [
     ("CLambda", _I(X0), "Any", None), ("CLambda", _I(X0, (X1,)), "All", _LAM), ("CLambda", ("Attr", _I(X0), X1), "Any", _LAM),
@@ -521,12 +546,22 @@ def action_items(run: Run, tier: str) -> List[Item]:
         is_call = p.name == "common_expr" and len(p.prod) >= 2 and p.prod[0] == "ODATA_IDENTIFIER" and p.prod[1] in ("(", "list_expr")
         ppools = []
         for j, s in enumerate(p.prod):
-            ppools.append(FUNC_POOL if (is_call and j == 0) else pl[s])
+            if is_call and j == 0:
+                # quick tier: the case variants, near-misses and a sample of the table (every name is covered at text level by
+                # the call-text family); thorough tier: the whole pool
+                ppools.append(FUNC_POOL if tier != "quick" else [f for f, nm in zip(FUNC_POOL, FUNC_NAMES)
+                                                                 if nm != nm.lower() or nm in FUNC_NAMES[:6] or nm not in _TABLE_NAMES])
+            elif is_call:
+                ppools.append(pl[s][:3])      # the whole function-name pool is kept; the argument shapes are few
+            else:
+                ppools.append(pl[s])
         if any(not q for q in ppools):
             run.inconclusive(f"action:{pi}:{p.name} -> {' '.join(p.prod)}", "grammar-action", "empty value pool for a symbol")
             continue
         # several large pools in one production: keep the product below ~150 paths (second and later big pools are thinned)
         budget = (100 if first_of_func else 24) if tier == "quick" else 600
+        if is_call:
+            budget = max(budget, 3 * len(ppools[0]))
         sizes = [len(q) for q in ppools]
         while _prod(sizes) > budget:
             j = max(range(len(sizes)), key=lambda t: sizes[t])
@@ -636,10 +671,49 @@ def _action_cex(run: Run, itm: Item, r) -> None:
                                                     "does not reach this reduction)", **wit}, r.seconds)
 
 
+# ---------------------------------------------------------------- text level: calls of every pool name with 0..3 arguments
+CALL_ARGS = ("", "a", "a, 'b'", "a, 1, 2", "p=1, q='s'")
+
+
+def calltext(lo: int, i: int, j: int) -> bool:
+    name = None
+    for k in range(lo, min(lo + 10, len(FUNC_NAMES))):      # explicit branching: the text stays concrete on every path
+        if i == k:
+            name = FUNC_NAMES[k]
+    args = None
+    for k in range(len(CALL_ARGS)):
+        if j == k:
+            args = CALL_ARGS[k]
+    if name is None or args is None or name == "":
+        return True
+    return text_outcome(name + "(" + args + ")").startswith(("node", "library exception"))
+
+
+def calltext_items() -> List[Item]:
+    items = []
+    for lo in range(0, len(FUNC_NAMES), 10):
+        hi = min(lo + 10, len(FUNC_NAMES))
+        items.append(Item(f"calltext_{lo}", "x0: int, x1: int", f"{lo} <= x0 < {hi} and 0 <= x1 < {len(CALL_ARGS)}", f"calltext({lo}, x0, x1)",
+                          family="call-text", describe=f"parse(name(args)) is a node or a library exception for name in {FUNC_NAMES[lo:hi]} x args in {CALL_ARGS}"))
+    return items
+
+
+def _calltext_cex(run: Run, itm: Item, r) -> None:
+    i, j = r.args
+    text = FUNC_NAMES[i] + "(" + CALL_ARGS[j] + ")"
+    out = text_outcome(text)
+    oname = f"{itm.name}:{itm.describe[:120]}"
+    if out.startswith(("FOREIGN", "NON-NODE")):
+        run.violation(oname, {"text": text, "outcome": out, "how_to_replay": "ODataParser().parse(ODataLexer().tokenize(text))"},
+                      f"parse({text!r}): {out}", itm.family, r.seconds)
+    else:
+        run.harness_error(oname, itm.family, {"text": text, "outcome": out, "crosshair": r.message}, r.seconds)
+
+
 # ====================================================================================================
 # running CrossHair conditions with custom counterexample handling
 # ====================================================================================================
-HEADER = "from verif.props.c10 import act, drive, drive2\n"
+HEADER = "from verif.props.c10 import act, drive, drive2, calltext\n"
 
 
 def analyse(run: Run, items: Sequence[Item], timeout: float, on_cex: Dict[str, Callable], workers: Optional[int], progress: bool) -> None:
@@ -686,9 +760,11 @@ def parser_layers(run: Run, progress: bool, workers: Optional[int]) -> None:
     d_items = driver_items(tier)
     a_items = action_items(run, tier)
     # expensive conditions first
-    items = d_items + a_items
+    items = d_items + a_items + calltext_items()
+    run.bounds["function_name_pool"] = list(FUNC_NAMES)
     analyse(run, items, 100 if tier == "quick" else 600,
-            {"driver": _driver_cex, "driver-determinism": _driver_cex, "grammar-action": _action_cex}, workers, progress)
+            {"driver": _driver_cex, "driver-determinism": _driver_cex, "grammar-action": _action_cex, "call-text": _calltext_cex},
+            workers, progress)
 
 
 # ====================================================================================================
